@@ -9,7 +9,7 @@ import z3
 from .sx_base import GenError, PathEnd, RaiseSig, ReturnSig
 from .sx_expr import is_const
 from .theory import Int, Ref
-from .values import (F, FAll, FAnd, FEx, FT, Sym, VCtxMgr, VExc, VFunc, VList, VModule, VObj, VOpt,
+from .values import (F, FAll, FAnd, FEx, FT, Sym, VCtxMgr, VExc, VFunc, VList, VModule, VObj, VOpaque, VOpt,
                      VSet, VUnique, EXC_PARENTS)
 
 
@@ -76,6 +76,10 @@ class CallMixin:
                 return self.unit.call_callee(self, fn.name, fn.payload, args, kwargs, node)
             if fn.kind == "builtin":
                 return fn.payload(self, args, kwargs)
+            if fn.kind == "unmodelled":
+                return self.unmodelled(fn.name, args, kwargs)
+        if isinstance(fn, VOpaque):
+            return self.unmodelled(fn.name + "()", args, kwargs)
         if isinstance(fn, type) and issubclass(fn, enum.Enum):
             return self.unit.enum_construct(self, fn, args[0])
         if isinstance(fn, VOpt):
@@ -89,6 +93,14 @@ class CallMixin:
                 raise GenError("calling a %s has no spec (%s)" % (fn.cls, key))
             return self.unit.call_callee(self, key, spec, [fn] + list(args), kwargs, node)
         raise GenError("call of %r (line %s)" % (fn, getattr(node, "lineno", "?")))
+
+    def unmodelled(self, name, args, kwargs):
+        """a call outside the contract's model: an effect of unknown nature (it may write anything)"""
+        self.log.append(("UNMODELLED", {"name": name, "args": tuple(args), "kwargs": dict(kwargs)}, None))
+        k = self.choose(2, "unmodelled raises")
+        if k == 1:
+            raise RaiseSig(VExc("OSError"), "unmodelled:" + name)
+        return VOpaque(name)
 
     # ---- closures / inlined functions: execute the real body
     def call_closure(self, fn: VFunc, args, kwargs):
